@@ -374,6 +374,21 @@ def scoped(rule, rels):
     return run
 
 
+def only_constructs(rule, rels):
+    """The rule as run on the whole tree, keeping only the findings about constructs of the given modules (a property about some
+    operators uses a tree-wide rule without answering for the other operators)."""
+    def run(ctx):
+        res = rule(ctx)
+        out = res if isinstance(res, list) else [res]
+        for r in out:
+            kept = [f for f in r.findings if any(f.construct.startswith(x) or (f.where or "").startswith(x) for x in rels)]
+            r.discharged += len(r.findings) - len(kept)
+            r.findings = kept
+        return res
+    run.__name__ = getattr(rule, "__name__", "rule")
+    return run
+
+
 def cfg_str(cfg):
     return ",".join("%s=%s" % (k, v) for k, v in sorted(cfg.items())) or "-"
 
